@@ -461,6 +461,11 @@ func runC08(c *Ctx) {
 							if strings.HasSuffix(Term(y.X), ".packets") && y.Index == v {
 								usedAsStart = true
 							}
+						case *ssa.Slice:
+							// for _, p := range a.packets[index+1:]
+							if strings.HasSuffix(Term(y.X), ".packets") && y.Low == v {
+								usedAsStart = true
+							}
 						case *ssa.Phi:
 							chase(y, d+1)
 						}
